@@ -3,6 +3,7 @@ package props
 import (
 	"fmt"
 	"go/token"
+	"go/types"
 	"sort"
 	"strings"
 
@@ -75,9 +76,10 @@ func runC38(c *an.Ctx) {
 	c.RequireMin("wallet decryptions with wallet parameters", nDec, 2)
 
 	// (2) mutators: success only after save; rollback; lock
-	save := mustObj(c, acct+".(*ClientImpl).save")
-	if save == nil {
-		return
+	// the client's private save() is a one-line forwarder to walletData.Save(path); it may have been inlined away
+	var save *types.Func
+	if sf := c.P.Func(acct + ".(*ClientImpl).save"); sf != nil {
+		save = funcObj(sf)
 	}
 	// persisting = the client's save(), or what it does written in place: walletData.Save(path)
 	walletSave := mustObj(c, acct+".(*WalletData).Save")
